@@ -83,7 +83,7 @@ func (c12Prop) Assumptions() []string {
 
 var c12Types = []string{"Flat", "Nested", "Ptrs", "Slices", "OneMap", "Timed", "Padded", "Omit", "Nulls", "PtrSlices", "NullPtrs"}
 
-var c12OpNames = []string{"build", "build", "register", "register", "decode", "decode", "decodeproj", "decodeproj", "encode", "encode", "readfile", "readfile", "closebanks", "schema", "fromstring", "parsetime", "parsetime", "encoder"}
+var c12OpNames = []string{"build", "build", "register", "register", "decode", "decode", "decodeproj", "decodeproj", "encode", "encode", "readfile", "readfile", "closebanks", "schema", "fromstring", "decoderef", "decoderef", "parsetime", "parsetime", "encoder"}
 
 func (c12Prop) Generate(seed uint64, idx int, tier string) *Plan {
 	r := NewRng(seed, uint64(idx)<<8|0x12)
@@ -498,20 +498,23 @@ type TimeOnly struct {
 // c12Env is shared, read-only during the concurrent phase (created by the
 // main goroutine before the workers start).
 type c12Env struct {
-	types    []*TypeDesc
-	codecs   []avro.Codec // shared codec per type
-	pcodecs  []avro.Codec // shared codec per type for a projected target (skip paths)
-	ptypes   []reflect.Type
-	ecodecs  []avro.Codec      // shared codec per type for an empty target (everything skipped)
-	schemaJS []string          // schema JSON per type
-	values   [][]reflect.Value // shared values per type
-	payloads [][][]byte        // per type: own encoding of each value
-	files    [][]byte          // prebuilt container files (one per type)
-	ftypes   []reflect.Type    // target type per file
-	chunks   []ChunkSpec       // per goroutine
-	timeC    avro.Codec        // shared codec for TimeOnly
-	chans    []chan *avro.ResourceBank
-	ng       int
+	types       []*TypeDesc
+	codecs      []avro.Codec // shared codec per type
+	pcodecs     []avro.Codec // shared codec per type for a projected target (skip paths)
+	ptypes      []reflect.Type
+	ecodecs     []avro.Codec   // shared codec per type for an empty target (everything skipped)
+	schemaJS    []string       // schema JSON per type
+	refTypes    []reflect.Type // reference-writer encodings decoded with SHARED codecs built from reference schema text
+	refCodecs   []avro.Codec
+	refPayloads [][][]byte
+	values      [][]reflect.Value // shared values per type
+	payloads    [][][]byte        // per type: own encoding of each value
+	files       [][]byte          // prebuilt container files (one per type)
+	ftypes      []reflect.Type    // target type per file
+	chunks      []ChunkSpec       // per goroutine
+	timeC       avro.Codec        // shared codec for TimeOnly
+	chans       []chan *avro.ResourceBank
+	ng          int
 }
 
 type c12Result struct {
@@ -662,6 +665,15 @@ func (env *c12Env) execOp(g int, op C12Op, alone bool) (res string) {
 			break
 		}
 		return "closed"
+	case "decoderef":
+		ri := op.A % len(env.refTypes)
+		pi := op.B % len(env.refPayloads[ri])
+		out := reflect.New(env.refTypes[ri]).Elem()
+		rb := avro.NewReadBuf(env.refPayloads[ri][pi])
+		err := env.refCodecs[ri].Read(rb, out.Addr().UnsafePointer())
+		s := fmt.Sprintf("decodedref err=%v left=%d %s", err, rb.Len(), describeAll([]reflect.Value{out}))
+		rb.ExtractResourceBank().Close()
+		return s
 	case "fromstring":
 		// parse schema text, build a codec from it and use it: the caller-supplied-schema path
 		s, err := avro.SchemaFromString(env.schemaJS[ti])
@@ -780,6 +792,43 @@ func newC12Env(pl *C12Plan) (*c12Env, error) {
 		}
 		env.files = append(env.files, bf.Bytes)
 		env.ftypes = append(env.ftypes, d.Type)
+	}
+	for _, name := range []string{"Slices", "Fixed", "PtrSlices", "Nested"} {
+		d := typeByName(name)
+		rs := SchemaOf(d.Type)
+		uniqueFixedNames(rs, map[string]int{})
+		as, err := avro.SchemaFromString(rs.JSON())
+		if err != nil {
+			return nil, err
+		}
+		c, err := as.Codec(reflect.New(d.Type).Elem().Interface())
+		if err != nil {
+			return nil, err
+		}
+		var pls [][]byte
+		for i, v := range GenValues(d.Type, 3, r.Uint64(), 2) {
+			k := i + 1
+			sp := func(n int) ([]int, bool) {
+				if n == 0 {
+					return nil, false
+				}
+				var out []int
+				for n > 0 {
+					c := min(k, n)
+					out = append(out, c)
+					n -= c
+				}
+				return out, i%2 == 1
+			}
+			e := &ref.Enc{NoMap: true}
+			if err := e.Encode(rs, ToDatum(rs, v, false, sp), "r"); err != nil {
+				return nil, err
+			}
+			pls = append(pls, e.Buf)
+		}
+		env.refTypes = append(env.refTypes, d.Type)
+		env.refCodecs = append(env.refCodecs, c)
+		env.refPayloads = append(env.refPayloads, pls)
 	}
 	s, err := avro.SchemaForType(TimeOnly{})
 	if err != nil {
